@@ -714,9 +714,53 @@ def run(ctx):
         ctx.note('bounds-checked overlay not built yet: checked stream skipped in the quick tier')
 
 
+def _as_csr(g):
+    dt = {'float': float, 'bool': bool, 'int': int}[g.get('dtype', 'float')]
+    return sparse.csr_matrix((np.array(g['data'], dtype=dt), np.array(g['indices'], dtype=np.int32),
+                              np.array(g['indptr'], dtype=np.int32)), shape=(g['n'], g['m']))
+
+
+def core_cases(ctx, graphs_):
+    """compute_core: the checked model (SkNet/Model/KernelsHeap.lean, theorem inbounds_core) against the kernel."""
+    from sknetwork.topology import get_core_decomposition
+    cases = []
+    for g in graphs_:
+        if g['n'] != g['m']:
+            continue
+        a = _as_csr(g)
+
+        def f():
+            return 'ok ' + enc_list(get_core_decomposition(a))
+        try:
+            impl = f()
+        except Exception as e:  # noqa
+            impl = 'err ' + type(e).__name__
+        run = 'c17.core %s %s' % (enc_list(g['indptr']), enc_list(g['indices']))
+        cases.append(Case(('core', run), {'entry': 'get_core_decomposition', 'kind': 'model'}, run, impl, None,
+                          len(g['indices']) > 0, {'task': {'algo': 'get_core_decomposition', 'graph': g, 'extra': {},
+                                                           'flavour': 'plain'}}))
+    return cases
+
+
 def kernel_model_cases(ctx):
-    """Hand models with checked access against the real kernels (filled as the models arrive)."""
-    return
+    """Hand models with checked access against the real kernels: run lines, compared exactly."""
+    rng = ctx.rng
+    gs = degenerate_graphs(rng) + random_graphs(rng, 40 if ctx.quick else 400)
+    for n in (1, 2, 3):
+        for es in graphs.all_digraphs(n, loops=True):
+            gs.append(gdict('all%d' % n, _csr(n, es)))
+    if not ctx.quick:
+        for es in graphs.all_undirected(4, loops=True):
+            gs.append(gdict('und4', _csr(4, es)))
+    for _ in range(30 if ctx.quick else 300):
+        n = rng.randint(2, 9)
+        es = graphs.random_edges(rng, n, rng.choice([0.1, 0.3, 0.6]), directed=rng.random() < 0.5, loops=True)
+        a = _csr(n, es)
+        if rng.random() < 0.5:
+            a = graphs.unsorted_copy(a, rng)
+        gs.append(gdict('rand%d' % n, a))
+    cases = core_cases(ctx, gs)
+    _evaluate(ctx, cases)
 
 
 def search(ctx, pending):
